@@ -17,9 +17,12 @@ const fineGrainBuild = true
 
 func installFineGrain(s *sched) {
 	verifyield.Hook = func(site string) { s.Yield(s.cur, "fn:"+site) }
+	if s.sc != nil && s.sc.Stmt {
+		verifyield.SHook = func(site string) { s.Yield(s.cur, "st:"+site) }
+	}
 }
 
-func uninstallFineGrain() { verifyield.Hook = nil }
+func uninstallFineGrain() { verifyield.Hook, verifyield.SHook = nil, nil }
 
 // setSimClock installs the simulated clock: every clock read of instrumented
 // code returns t (unix seconds, UTC) and is reported to onRead.
